@@ -29,6 +29,8 @@ Notation tag := N (only parsing).
 Definition LAMBDA : N := 99%N.
 Definition fn_tag (i : nat) : N := (100 + N.of_nat i)%N.
 Definition sym_tag (t : N) : bool := (50 <=? t)%N.
+Arguments fn_tag : simpl never.
+Arguments sym_tag : simpl never.
 
 (* condition classes a program can signal: (error "boom"), (/ 1 0), (car 1), (list unbound-xyz),
    (undefined-fn-xyz); control-error comes from return-from / go outside any block / tagbody. COther is
